@@ -72,7 +72,7 @@ class C12(Check):
         for i in range(12 if q else 200):
             yield dict(kind="generated", seed=seed * 1013 + i)
         for i in range(40 if q else 1000):
-            yield dict(kind="refusal", seed=seed * 1019 + i, f=[0.0, 0.2, 1.5, 3.0, 10.0, "keys", "keys_same_len"][i % 7])
+            yield dict(kind="refusal", seed=seed * 1019 + i, f=[0.0, 0.2, 1.5, 3.0, 10.0, "keys", "keys_same_len", "single_object"][i % 8])
 
     def setup_worker(self):
         warnings.simplefilter("ignore")
@@ -278,6 +278,37 @@ class C12(Check):
             return cats.create(tmp / name, cats.table(ra, dec, z=rng.uniform(0.1, 1.0, len(ra)) if z else None),
                                centers=cats.coords_obj(cen))
 
+        if f == "single_object":
+            # index-column mode: the largest catalog has a single-object patch (radius ~ 0, centre
+            # taken from the data); its counterpart in the other catalogs sits several degrees away
+            def mks(name, n_big, single_at, z):
+                parts, ids = [], []
+                for k in range(P - 1):
+                    parts.append(gen.cap_points(rng, centres[k], r, n_big))
+                    ids.append(np.full(n_big, k))
+                parts.append(np.atleast_2d(single_at) if single_at.ndim == 1 else single_at)
+                ids.append(np.full(len(parts[-1]), P - 1))
+                xyz = np.concatenate(parts)
+                ra, dec = gen.xyz_to_radec(xyz)
+                return cats.create(tmp / name, cats.table(ra, dec, z=rng.uniform(0.1, 1.0, len(ra)) if z else None,
+                                                          patch=np.concatenate(ids)))
+
+            displaced = gen.cap_points(rng, gen.cap_points(rng, centres[P - 1], np.deg2rad(8.0), 1)[0], r * 0.1, 10)
+            displaced = displaced[np.arccos(np.clip(displaced @ centres[P - 1], -1, 1)) > np.deg2rad(1.0)]
+            if len(displaced) == 0:
+                return False
+            ref = mks("ref", 60, centres[P - 1], True)
+            unk = mks("unk", 30, displaced, False)
+            ur = mks("ur", 30, displaced, False)
+            counters["refusal_tests"] = counters.get("refusal_tests", 0) + 1
+            try:
+                yaw.crosscorrelate(cfg, ref, unk, unk_rand=ur, max_workers=1)
+                bad("refusal:misaligned-centres-accepted:single-object-patch", dict(P=P))
+            except InconsistentPatchesError:
+                pass
+            except Exception as e:
+                bad(f"refusal:raises-other-{type(e).__name__}:single-object", dict(error=str(e)[:200]))
+            return True
         if f == "keys_same_len":
             # same number of patches, different index sets (index column with a gap)
             def mki(name, ids, z):
